@@ -280,9 +280,14 @@ def c08_linear_solve(ctx, shape, form, history):
         rb[-1] = 1.0
         refused = False
         try:
-            w.linear_solve(Jb, rb)
+            xb, _ = w.linear_solve(Jb, rb.copy())
         except Exception:      # noqa: BLE001 - NotImplementedError in the pressure formulation; the other formulations simply solve it
             refused = True
+        if not refused:
+            # a system with a non-zero constraint value is either refused or SOLVED: what is returned satisfies every row of it
+            resb = Jb.dot(xb) - rb
+            for i in range(len(rb)):
+                ctx.ensure(f"system with constraint value 1 was served: row {i} of J x = r holds", eq(resb[i], 0.0))
     if history in ("reuse-factorisation", "reuse-on-first-call") or (history == "rejected-call-between" and refused):
         # documented reuse: same matrix, new right-hand side, cached factorisation
         f2 = ctx.array("g", (nc - 1,), sample=(-1.0, 1.0))
